@@ -17,7 +17,8 @@ tree   propagator_cpmc / propagator_cpmc_slow: ONE population holding one walker
        propagator actually used and (b) E = exp(-dt K/2), K the bare lattice kinetic matrix (the property as
        stated).  Every case is run twice: with exp_h1 exactly as ham.build_propagation_intermediates builds
        it from a Hubbard ham_data assembled the way examples/hubbard.ipynb does (mode "library"), and with
-       exp_h1 := exp(-dt K/2) supplied by the harness (mode "bare").
+       exp_h1 := exp(-dt K/2) supplied by the harness (mode "bare").  K carries a spin label: besides the bare hopping
+       (K_up = K_dn) a staggered Zeeman field and an edge pinning field K_s = K +- diag(f) are letters of the alphabet.
 nn     propagator_cpmc_nn / propagator_cpmc_nn_slow: their uniforms come from `random` in the propagation
        module namespace; the harness rebinds that name to a pass-through fake (split(k) = (k, k);
        uniform(k, shape) = the matching slice of k) so prop_data["key"] *is* the table of uniforms - a traced
@@ -150,11 +151,31 @@ def hubbard_chol(n, U, u1=0.0, bonds=()):
     return chol.reshape(nchol, -1)
 
 
-def hubbard_ham_data(K, U, u1=0.0, bonds=()):
-    """ham_data as mpi_jax._prep_afqmc assembles it from the files prep_afqmc writes."""
+FIELDS = ("none", "staggered", "edge")
+
+
+def spin_K(K, field="none"):
+    """One-body matrices per spin, K_sigma = K + s_sigma * diag(f), s_up = +1, s_dn = -1 (a Zeeman-type term, which
+    ham_data["h1"] of shape (2,n,n) carries):  staggered f_i = 0.3 (-1)^i ;  edge: pinning field 0.5 on site 0 only."""
+    n = K.shape[0]
+    if field == "none":
+        f = np.zeros(n)
+    elif field == "staggered":
+        f = 0.3 * (-1.0) ** np.arange(n)
+    elif field == "edge":
+        f = np.zeros(n)
+        f[0] = 0.5
+    else:
+        raise ValueError(field)
+    return np.array([K + np.diag(f), K - np.diag(f)])
+
+
+def hubbard_ham_data(K, U, u1=0.0, bonds=(), field="none"):
+    """ham_data as mpi_jax._prep_afqmc assembles it from the files prep_afqmc writes (h1 = [h1, h1]); a spin-dependent
+    one-body letter replaces the two copies by K_up, K_dn."""
     _, jnp, _, _, _ = _lib()
     n = K.shape[0]
-    hd = {"h0": jnp.asarray(0.0), "h1": jnp.asarray(np.array([K, K])),
+    hd = {"h0": jnp.asarray(0.0), "h1": jnp.asarray(spin_K(K, field)),
           "chol": jnp.asarray(hubbard_chol(n, float(U), float(u1), tuple(bonds))), "ene0": 0.0}
     return hd
 
@@ -569,14 +590,16 @@ def run_population(case):
     phi = make_walker(ref, case["walker"], seed)
     prop = _prop_for(pname, dt, W, bonds)
     ham = hamiltonian.hamiltonian(n)
-    hd = hubbard_ham_data(K, U, u1 if is_nn else 0.0, bonds)
+    field = case.get("field", "none")
+    Ks = spin_K(K, field)
+    hd = hubbard_ham_data(K, U, u1 if is_nn else 0.0, bonds, field)
     hd = ham.build_measurement_intermediates(hd, trial, wd)
     hd = ham.build_propagation_intermediates(hd, prop, trial, wd)
     hd["u"] = U
     if is_nn:
         hd["u_1"] = u1
     E_lib = np.asarray(hd["exp_h1"], dtype=float)
-    E_bare = np.array([_sym_expm(-dt * K / 2.0)] * 2)
+    E_bare = np.array([_sym_expm(-dt * Ks[0] / 2.0), _sym_expm(-dt * Ks[1] / 2.0)])
     if mode == "bare":
         hd["exp_h1"] = jnp.asarray(E_bare)
     E = E_bare if mode == "bare" else E_lib
@@ -691,11 +714,11 @@ def run_population(case):
             # sampling is exact given the half step, so the half step itself is what differs from exp(-dt K/2)
             c = float(np.vdot(rhs_K, lhs) / np.vdot(rhs_K, rhs_K))
             res_scaled = float(np.abs(lhs - c * rhs_K).max() / sc)
-            hmod = -2.0 / dt * _sym_log(E[0])
+            hmod = np.array([-2.0 / dt * _sym_log(E[0]), -2.0 / dt * _sym_log(E[1])])
             viol.append(("%s->cpmc exp_h1:half-step-is-not-exp(-dt*K/2)" % half_step_origin(prop),
                          dict(residual_with_bare_K=res_K, residual_with_used_half_step=res_E,
                               max_abs_exp_h1_minus_exp_mdtK2=info["E_minus_bare"],
-                              effective_h1_minus_K=hmod - K, pure_weight_factor=bool(res_scaled <= 1e-9),
+                              effective_h1_minus_K=hmod - Ks, one_body_field=field, pure_weight_factor=bool(res_scaled <= 1e-9),
                               weight_factor=c, trial_density=ref.density, prop=pname)))
     info["ref_mismatch"] = ref_mismatch
     return dict(viol=viol, info=info)
@@ -726,7 +749,20 @@ def tree_cases(cfg):
                         for pname in ("propagator_cpmc", "propagator_cpmc_slow"):
                             for mode in ("library", "bare"):
                                 out.append(dict(cfg, fam="tree", lat=lat, U=U, dt=dt, density=density, walker=walker,
-                                                prop=pname, mode=mode, shift=_shift_letter(il, iu, idt, idn, iw)))
+                                                prop=pname, mode=mode, field="none", shift=_shift_letter(il, iu, idt, idn, iw)))
+    # spin-dependent one-body letter h1[0] != h1[1] (staggered Zeeman field, edge pinning field): same compiled programs
+    deep = cfg.get("thorough", False)
+    for il, lat in enumerate(LATS[n]):
+        for ifd, field in enumerate(FIELDS[1:]):
+            for iu, U in enumerate(cfg["Us"] if deep else cfg["Us"][:1]):
+                for idt, dt in enumerate(cfg["dts"] if deep else cfg["dts"][:1]):
+                    for idn, density in enumerate(["nonuniform", "uniform"]):
+                        if (full and density == "nonuniform") or (density == "uniform" and not uni):
+                            continue
+                        for pname in ("propagator_cpmc", "propagator_cpmc_slow"):
+                            for mode in ("library", "bare"):
+                                out.append(dict(cfg, fam="tree", lat=lat, U=U, dt=dt, density=density, walker="near",
+                                                prop=pname, mode=mode, field=field, shift=_shift_letter(il, iu, idt, idn, ifd)))
     return out
 
 
@@ -745,12 +781,21 @@ def nn_cases(cfg):
                         for iw, walker in enumerate(cfg["walkers"]):
                             for pname in ("propagator_cpmc_nn", "propagator_cpmc_nn_slow"):
                                 out.append(dict(cfg, fam="nn", lat=lat, U=U, u1=u1, dt=dt, density=density, walker=walker,
-                                                prop=pname, mode="library", shift=_shift_letter(iu, i1, idt, idn, iw)))
+                                                prop=pname, mode="library", field="none", shift=_shift_letter(iu, i1, idt, idn, iw)))
+    # spin-dependent one-body letter (propagator_cpmc_nn_slow builds its half step on its own inheritance path)
+    deep = cfg.get("thorough", False)
+    full = cfg["na"] == n and cfg["nb"] == n
+    for lat in LATS[n]:
+        for ifd, field in enumerate(FIELDS[1:] if (deep or n == 2) else FIELDS[1:2]):
+            density = "uniform" if full else "nonuniform"
+            for pname in ("propagator_cpmc_nn", "propagator_cpmc_nn_slow"):
+                out.append(dict(cfg, fam="nn", lat=lat, U=cfg["Us"][0], u1=1.0, dt=cfg["dts"][0], density=density, walker="near",
+                                prop=pname, mode="library", field=field, shift=_shift_letter(ifd)))
     return out
 
 
 def _case_key(c):
-    return tuple(c.get(k) for k in ("fam", "lat", "n", "na", "nb", "trial", "U", "u1", "dt", "density", "walker", "prop", "mode"))
+    return tuple(c.get(k) for k in ("fam", "lat", "n", "na", "nb", "trial", "U", "u1", "dt", "density", "walker", "prop", "mode", "field"))
 
 
 def job_paths(cfg):
@@ -783,6 +828,8 @@ def _job_paths(cfg):
         if info["identity_evaluated"]:
             res.guard("identity_evaluated[%s]" % case["mode"], 1)
             res.guard("identity_evaluated[%s,%s density]" % (case["mode"], case["density"]), 1)
+            if case.get("field", "none") != "none":
+                res.guard("identity_evaluated[%s,spin-dependent one-body %s]" % (case["mode"], case["field"]), 1)
             res.nontrivial_values(("p",) + _case_key(case), info["leaf_p"], 10)
         else:
             res.guard("identity_not_evaluated(constraint active or weight clipped on some path)", 1)
@@ -1073,7 +1120,8 @@ def make_jobs(tier, seed):
     for n in ((2, 3, 4, 5) if thorough else (2, 3, 4)):
         for (na, nb) in fillings(n, tier):
             for kind in ("uhf_cpmc", "ghf_cpmc"):
-                jobs.append(("paths", dict(fam="tree", n=n, na=na, nb=nb, trial=kind, seed=seed, Us=[4.0, 1.0, 8.0], dts=[0.1, 0.01])))
+                jobs.append(("paths", dict(fam="tree", n=n, na=na, nb=nb, trial=kind, seed=seed, Us=[4.0, 1.0, 8.0], dts=[0.1, 0.01],
+                                           thorough=thorough)))
     # neighbour-interaction propagators with the virtual RNG
     for n in (2, 3):
         if n == 2:
@@ -1082,7 +1130,7 @@ def make_jobs(tier, seed):
             fl = [(1, 1), (2, 1), (2, 2), (3, 2), (1, 2)] if thorough else [(2, 1)]
         for (na, nb) in fl:
             for kind in ("uhf_cpmc", "ghf_cpmc"):
-                jobs.append(("paths", dict(fam="nn", n=n, na=na, nb=nb, trial=kind, seed=seed,
+                jobs.append(("paths", dict(fam="nn", n=n, na=na, nb=nb, trial=kind, seed=seed, thorough=thorough,
                                            Us=[4.0, 1.0] if (thorough and n == 2) else [4.0],
                                            dts=[0.1, 0.01] if thorough else [0.1],
                                            walkers=["near"] if (n == 3 and not thorough) else ["near", "far"],
@@ -1116,7 +1164,8 @@ def run(ctx):
     ctx.rule = ("fast: trial kind x (n_sites, n_up, n_dn) x {orthonormal uniform / non-uniform density, non-orthonormal} x 2 real "
                 "walkers x every ordered pair of distinct spin-orbitals x 4x4 update constants; a state is one (trial, walker, pair, "
                 "constants) and is non-trivial when its reference overlap ratio is a distinct non-zero number.  tree/nn: lattice x "
-                "filling x U x dt x trial kind x density profile x walker x propagator x half-step source; a state is one forced "
+                "filling x U x dt x trial kind x density profile x walker x propagator x half-step source x one-body letter (spin-"
+                "independent hopping, + staggered Zeeman field, + edge pinning field: h1[0] != h1[1]); a state is one forced "
                 "walker = one complete field configuration (leaf) or one boundary probe of one internal node of the decision tree, "
                 "all executed in one population through prop.propagate; non-trivial & distinct = distinct non-zero leaf "
                 "probabilities of the configurations on which the summed identity was evaluated")
@@ -1159,6 +1208,8 @@ def run(ctx):
         ctx.violation(v["signature"], v["case"], v["detail"])
     ctx.require_guard("leaves", "probes_with_interior_probability", "identity_evaluated[library]", "identity_evaluated[bare]",
                       "identity_evaluated[library,uniform density]", "identity_evaluated[library,nonuniform density]",
+                      "identity_evaluated[library,spin-dependent one-body staggered]",
+                      "identity_evaluated[library,spin-dependent one-body edge]",
                       "pair_constant_cases[same-spin]", "pair_constant_cases[opposite-spin]", "fast_vs_slow_walkers_compared",
                       "example_route_cells", "walkers_with_constraint_active")
 
